@@ -52,8 +52,8 @@ def small_int(shape, salt=0):
     return np.asarray((((k * 7 + salt * 3) % 11) - 5).reshape(shape), dtype=np.float64)
 
 def offset(shape, salt=0, seed=None):
-    """spread ~1 around a mean of 1e5 (cancellation-prone for one-pass variance formulas)"""
-    return 1e5 + generic(shape, salt, seed)
+    """spread ~1 around a mean of 1e3 (cancellation-prone for one-pass variance formulas; judged in float32)"""
+    return 1e3 + generic(shape, salt, seed)
 
 PATTERNS = {"offset": offset, "generic": generic, "positive": positive, "prob": prob, "with_zeros": with_zeros, "ties": ties}
 
